@@ -52,7 +52,10 @@ def handler(c):
         return x if x is None or x < 0 else x + OFF
 
     def dec(x):
-        return x if x is None or x < OFF else x - OFF      # (an automatic label max+1 over all-negative labels is 0, not offset)
+        if x is None or x < 0 or OFF == 0:
+            return x
+        # (an automatic label max+1 over all-negative labels is 0, not offset: reported in a namespace of its own so that it cannot be mistaken for label 0 + offset)
+        return x - OFF if x >= OFF else x + 10 ** 6
     rng = np.random.default_rng(c["seed"])
     atoms = Atoms("Ar" * n, positions=np.array(c["positions"], dtype=float), cell=[15.0, 15.0, 15.0], pbc=True)
     if c.get("fixed"):
